@@ -59,6 +59,18 @@ CHECKS = {
    text="FileCheck.tla prescribes, for a table over abstract cells (HED column: 2 valid tags, failing cell, n/a, unmatched Offset, Delay/Duration group; categorical column: 2 categories, failing category, n/a, unknown key), with or without an onset column, distinct onsets in any order and n/a onsets, the multiset of <<code, file row, column>>; TLC checks ShuffleLaw and LabelsTrue on all tables <= 2 rows and emits them (3-row tables by simulation); each is concretised (rotating tags, 8 kinds of failing cell incl. bad Delay values, 6 Delay/Duration unit spellings) and run through TabularInput.validate: never raises, errors equal the prescription with row/column labels (extra errors allowed only on rows with a failing cell), rows with clean cells equal real string-level validation of the assembled row, and every row permutation yields the same issues with labels following the rows plus exactly one out-of-order warning",
    note="distinct onsets only (equal-onset merging is covered by C10/C20); bounded table size; 8.3.0 vocabulary",
    technique="TLA+ spec + TLC model checking; exhaustive table replay; differential against string-level validation"),
+ "C02": dict(
+   text="HedText.tla holds the declarative definition (maximal non-delimiter runs trimmed of blanks, python-style spans, balance, matching parentheses, tree shape, printing) next to the step-wise algorithm of split_hed_string / split_into_groups (one action per character / token, both ValueError exits); TLC proves Tiling, TokenClasses, AlgoMatchesDecl, TagSlices, RejectIffUnbalanced, UnbalancedEmpty, TreeMatchesDecl, GroupSpans, RoundTrip, PrintStable for ALL texts up to length 6 (7 thorough; 0.74M / 6.4M states), rejects five broken variants, and emits every text <= 6 (8 thorough: 2.0M) with its expected spans / nesting / prints, replayed on the real HedString (spans, slices, groups, parents, str, re-parse of original/short/long prints; unbalanced => empty tree and PARENTHESES_MISMATCH), also with 't' runs concretised by real 8.3.0 tag spellings; hypothesis-generated Unicode texts (never raises) are abstracted and judged by TLC in trace mode",
+   note="built by a sub-agent under the same brief; blank = U+0020 (as the tokenizer and the statement's alphabet); exact print text beyond re-parse equality is spec drift only",
+   technique="TLA+ spec + TLC model checking (algorithm == definition for all short strings); exhaustive replay; TLC trace validation"),
+ "C14": dict(
+   text="Compliance.tla holds the rule table Expected(fault kind, section, placeholder, generation) -> (specification code, severity) for 14 fault kinds; TLC checks Deterministic, SpecCodesOnly, WarningsOffOnlyErrors on all 1344 (fault, feature vector) pairs, Covered / DomainsClean on the facts of every bundled schema (independent XML reader) and that two broken tables violate Deterministic; every bundled standard and partnered schema must pass check_compliance without error; every fault kind is seeded at every position of 11 schema variants (XML edited by ElementTree, thousands of disjoint seeds per reload; 98k seeded cases quick, 376k thorough), check_compliance run with warnings on/off, issues attributed to positions through the context fields and judged by TLC in trace mode",
+   note="built by a sub-agent under the same brief; seeding is XML only; specification codes transcribed from error_types.py / known_error_codes.py (Appendix B not available offline); changed-hedId exercised through re-labelled version pairs in a private cache",
+   technique="TLA+ decision table + TLC; fault seeding at vocabulary scale; TLC trace validation"),
+ "C17": dict(
+   text="Remodel.tla gives the 8 non-summary operations as functions of (parameters, table) from their documented meaning (ok table / documented error / undefined), the remodeler's validation as a predicate over the JSON specification (14 structural fault kinds + per-operation rules) and a dispatcher with persistent operation objects; TLC checks ParamsConstant, InputUnchanged, OrderIndependent, InvalidNeverExecutes, ValidImpliesRuns, ResultsWellFormed and rejects two leaky variants; every emitted case (op list with all flag settings / omitted optionals, 1-3 tables, processing order, expected table per step; 13k quick, 103k thorough) is replayed through RemodelerValidator and ONE Dispatcher per case (DataFrame and file paths), comparing results as text (n/a kept distinct from NaN), input frame / file bytes, ops JSON and operation attributes after every step; invalid lists go through run_remodel.main (must refuse, files untouched); seeded deeper runs are recorded and judged by TLC (Trace_Remodel)",
+   note="built by a sub-agent under the same brief; readings more detailed than the documentation are flagged and only counted as spec drift; op-list space: all single ops x all tables, pairs from a pool, selected triples",
+   technique="TLA+ spec + TLC model checking; exhaustive case replay; TLC trace validation"),
 }
 ALL = ["C%02d" % i for i in range(1, 21)]
 m = {
